@@ -19,7 +19,7 @@ Fixpoint run_with (stp : state -> op -> R reply) (s : state) (h : list op) : opt
 Definition run := run_with step.
 Definition run_orig := run_with step_orig.
 
-(** ---- decidable equality on ops (for the replay test of K18) *)
+(** ---- decidable equality on ops (for the replay test of K29) *)
 Definition qos_eqb (a b : qos) : bool :=
   match a, b with Q0, Q0 | Q1, Q1 | Q2, Q2 => true | _, _ => false end.
 Definition publish_eqb (a b : publish) : bool :=
@@ -44,17 +44,17 @@ Fixpoint replayed (l : list request) (h : list op) : bool :=
 
 (** ---- known-finding classes of C11 (retransmission ORDER only; nothing is lost) *)
 
-(** K19: a Subscribe/Unsubscribe request in the history.  They draw packet ids from the same
+(** K30: a Subscribe/Unsubscribe request in the history.  They draw packet ids from the same
     allocator as publishes, so the ids of the unacknowledged publishes no longer form the cyclic
     interval that [clean]'s rotation at [last_puback + 1] assumes. *)
 Definition is_sub (o : op) : bool :=
   match o with Out (RSubscribe _) | Out (RUnsubscribe _) => true | _ => false end.
-Definition k19 (h : list op) : bool := existsb is_sub h.
+Definition k30 (h : list op) : bool := existsb is_sub h.
 
-(** K18: some [Clean] before the end of the history returned work that was not replayed
+(** K29: some [Clean] before the end of the history returned work that was not replayed
     right after it (a reconnect without session): [last_puback] and the id allocator keep
     their old values, so the rotation point is stale on the next failure. *)
-Fixpoint k18_from (s : state) (h : list op) : bool :=
+Fixpoint k29_from (s : state) (h : list op) : bool :=
   match h with
   | [] => false
   | o :: r =>
@@ -64,13 +64,13 @@ Fixpoint k18_from (s : state) (h : list op) : bool :=
            | [], _ => false
            | _, [] => false
            | _, _ => negb (replayed l r)
-           end) || k18_from s' r
-      | Ok (s', _) => k18_from s' r
-      | Err (s', _) => k18_from s' r
+           end) || k29_from s' r
+      | Ok (s', _) => k29_from s' r
+      | Err (s', _) => k29_from s' r
       | Panic _ => false
       end
   end.
-Definition k18 (max : N) (manual : bool) (h : list op) : bool := k18_from (init max manual) h.
+Definition k29 (max : N) (manual : bool) (h : list op) : bool := k29_from (init max manual) h.
 
 (** ---- the contract EventLoop keeps towards MqttState (what "user requests" means at this level) *)
 Definition api_request (r : request) : bool :=
